@@ -95,14 +95,15 @@ where
 
     #[inline]
     fn xor(self, mut other: Self) -> Self {
-        let two = || T::one() + T::one();
-
         for (src, dst) in zip_colors(self.color, &mut other.color) {
             *dst = src * (T::one() - &other.alpha) + (T::one() - &self.alpha) * &*dst;
         }
 
+        // Same weights as for the color components. The algebraically equal
+        // `a + b - 2ab` cancels catastrophically when both alphas are close
+        // to 1, which made the unpremultiplied color overshoot.
         other.alpha = clamp(
-            self.alpha.clone() + &other.alpha - two() * self.alpha * other.alpha,
+            self.alpha.clone() * (T::one() - &other.alpha) + (T::one() - self.alpha) * other.alpha,
             T::zero(),
             T::one(),
         );
